@@ -51,12 +51,7 @@ func c16(r *core.Run) {
 	c01Enqueue(r, a, e)
 	c01Funnel(r, "G1", a, p.FuncsOfPkg(""))
 	root := p.FuncsOfPkg("")
-	var firstGo ssa.Instruction
-	for _, c := range core.Calls(a.Serve) {
-		if core.IsGo(c) && firstGo == nil {
-			firstGo = c
-		}
-	}
+	firstGo := firstWorkerStart(p, a)
 	// universe: fields of S and W, except sync-typed fields and the embedded Mux
 	inUniverse := func(f core.Field) bool {
 		if f.Struct != a.S && f.Struct != a.W {
@@ -140,7 +135,45 @@ func c16(r *core.Run) {
 					ok = false
 				}
 			}
-			if ok {
+			// ... and it is one-shot: once the guarded region has run the field is non-nil, whatever
+			// the handlers are - every value stored is provably non-nil and every path from the
+			// nil edge to a return stores one. Otherwise the guard stays open and every later
+			// ResetAll (any goroutine, also the reconnect callback) writes the field again.
+			oneShot, why := true, ""
+			for _, w := range fa.writes {
+				if st, isSt := w.Instr.(*ssa.Store); isSt && !nonNilSlice(st.Val, 0) {
+					oneShot, why = false, "the value stored at "+p.InstrPos(st)+" can be nil ("+valDesc(st.Val)+")"
+				}
+			}
+			if ok && oneShot && len(fa.writes) > 0 {
+				fn := fa.writes[0].Instr.Parent()
+				fl := &core.Flow{Fn: fn, Entry: core.StateSet(0).Add(0)}
+				fl.Transfer = func(in ssa.Instruction, st int) core.StateSet {
+					if sto, isSt := in.(*ssa.Store); isSt {
+						if g, ok := core.FieldOf(sto.Addr); ok && g == f {
+							return core.StateSet(0).Add(0)
+						}
+					}
+					return core.StateSet(0).Add(st)
+				}
+				fl.Branch = func(iff *ssa.If, succ int, st int) (int, bool) {
+					for _, ed := range []edgeCond{{If: iff, Succ: succ}} {
+						if describeCond(ed) == f.String()+"==nil" {
+							return 1, true
+						}
+					}
+					return st, true
+				}
+				res := fl.Run()
+				for _, ret := range core.Returns(fn) {
+					if res.Before[ret].Has(1) {
+						oneShot, why = false, "a path from the ==nil edge reaches the return at "+p.InstrPos(ret)+" without storing"
+					}
+				}
+			}
+			if ok && !oneShot {
+				r.Bad("D1", f.String(), "guarded-lazy-default:one-shot", p.InstrPos(fa.writes[0].Instr), "the ==nil guard of the lazily defaulted ownership list is not closed by the defaulting ("+why+"): for a service without handlers of that kind the field stays nil, so every ResetAll - from user goroutines and from the reconnect callback - stores to it again, unsynchronised with the other callers' reads and writes")
+			} else if ok {
 				r.ExemptObl("D1", f.String(), "guarded-lazy-default", "-", "written only when still nil; the start-up path (subscribe, on the Serve goroutine before OnServe) executes the defaulting first, so later executions from ResetAll/reconnect only read")
 			} else {
 				r.Bad("D1", f.String(), "guarded-lazy-default", p.InstrPos(fa.writes[0].Instr), "ownership list written without the ==nil guard")
@@ -474,4 +507,43 @@ func loopCaptureRule(r *core.Run, rule, badText string) {
 		}
 	}
 	r.OKTrivial(rule, "library", "closures-in-loops-scanned", "-", fmt.Sprintf("%d closures created in loops, none shares a re-assigned variable", nLoopCl))
+}
+
+// nonNilSlice: v is provably a non-nil slice - a composite literal or make, or
+// the result of a module function all of whose returns are.
+func nonNilSlice(v ssa.Value, depth int) bool {
+	if depth > 4 {
+		return false
+	}
+	switch x := v.(type) {
+	case *ssa.Slice:
+		_, isAlloc := x.X.(*ssa.Alloc)
+		return isAlloc
+	case *ssa.MakeSlice:
+		return true
+	case *ssa.Phi:
+		for _, e := range x.Edges {
+			if !nonNilSlice(e, depth+1) {
+				return false
+			}
+		}
+		return len(x.Edges) > 0
+	case *ssa.Call:
+		cal := x.Common().StaticCallee()
+		if cal == nil || len(cal.Blocks) == 0 || cal.Signature.Results().Len() != 1 {
+			return false
+		}
+		n := 0
+		for _, ret := range core.Returns(cal) {
+			if cal.Recover != nil && ret.Block() == cal.Recover {
+				continue
+			}
+			n++
+			if !nonNilSlice(ret.Results[0], depth+1) {
+				return false
+			}
+		}
+		return n > 0
+	}
+	return false
 }
